@@ -652,6 +652,15 @@ func genConcPlan(r *rand.Rand, tier string) *vfPlan {
 				c = pick(r, cs[:8])
 			} else if mgmtFirst {
 				c = pick(r, cs[8:])
+				if chance(r, 0.35) {
+					// the handlers that run on every login are the likeliest partners in a deployment
+					for _, x := range cs {
+						if x.Op == pick(r, []string{"u2fsignresp", "webauthn_finish", "totp"}) && x.B == "" {
+							c = x
+							break
+						}
+					}
+				}
 			}
 			dup := false
 			for _, g := range group {
